@@ -36,7 +36,9 @@ Inductive rerr := REExist | RENotExist | REOtherUrl | REClosed | REDbClosed | RE
 Inductive rresp := RROk | RROpened (h : N) | RRErr (e : rerr).
 
 Definition mem_url : string := "file:/?mode=memory".
-Definition the_url (mem : bool) (url : string) : string := if mem then mem_url else url.
+(* An in-memory bucket's URL is the canonical one, or - "rosmar:///some/path?mode=memory" - carries a path
+   (url is then that path, "" otherwise); either way nothing is created in the file system. *)
+Definition the_url (mem : bool) (url : string) : string := if mem then (mem_url ++ url)%string else url.
 
 Definition count_of (s : rstate) (name : string) : N :=
   match alookup String.eqb name (r_count s) with Some c => c | None => 0 end.
